@@ -99,6 +99,34 @@ where
         (Err(_), None) => {}
     }
 
+    // ---- in-place decoding over a live value (`Deserialize::deserialize_in_place`, what containers
+    //      that reuse storage call): same result as the by-value route, nothing left of the old value
+    {
+        use bincode::Options;
+        let opts = bincode::DefaultOptions::new().with_fixint_encoding().allow_trailing_bytes();
+        let mut place = !x;
+        let ok = total("deserialize_in_place::<Uint> (bincode)", || {
+            let mut de = bincode::Deserializer::from_slice(&b, opts);
+            serde::Deserialize::deserialize_in_place(&mut de, &mut place).is_ok()
+        })?;
+        vensure!(ok, "bincode deserialize_in_place refused the type's own output");
+        veq!(ul(&place), xl, "bincode deserialize_in_place round trip");
+        let mut place = Wrapping(!x);
+        let ok = total("deserialize_in_place::<Wrapping<Uint>> (JSON)", || {
+            let mut de = serde_json::Deserializer::from_str(&j);
+            serde::Deserialize::deserialize_in_place(&mut de, &mut place).is_ok()
+        })?;
+        vensure!(ok, "JSON deserialize_in_place refused the type's own output");
+        veq!(ul(&place.0), xl, "JSON deserialize_in_place round trip (Wrapping)");
+        // a truncated encoding decoded in place fails like the by-value route
+        let mut place = x;
+        let ok = total("deserialize_in_place::<Uint> (truncated)", || {
+            let mut de = bincode::Deserializer::from_slice(&b[..b.len() - 1], opts);
+            serde::Deserialize::deserialize_in_place(&mut de, &mut place).is_ok()
+        })?;
+        vensure!(!ok, "bincode deserialize_in_place accepted a truncated encoding");
+    }
+
     // ---- wrappers
     let w = Wrapping(x);
     veq!(ul(&unbin::<Wrapping<Uint<N>>>("Wrapping", &bin("Wrapping", &w)?)?.0), xl, "Wrapping bincode round trip");
